@@ -28,6 +28,9 @@ type readerCfg struct {
 	// every later call, "eof" = io.EOF from then on, "resume" = the remaining data as if nothing
 	// had happened (a transient failure)
 	After string `json:"after"`
+	// ErrWithData: the failing call also delivers the last bytes before the failure point
+	// (n > 0 together with a non-nil error, which the io.Reader contract allows)
+	ErrWithData bool `json:"err_with_data"`
 }
 
 type meterReader struct {
@@ -115,6 +118,11 @@ func (m *meterReader) Read(p []byte) (int, error) {
 	}
 	copy(p, m.data[m.pos:m.pos+n])
 	m.pos += n
+	if m.cfg.ErrWithData && m.failedErr == nil && m.pos >= limit && m.cfg.FailAt >= 0 && m.cfg.FailAt <= len(m.data) {
+		m.sawEnd = true
+		m.failedErr = mkErr(m.cfg.Err)
+		return n, m.failedErr
+	}
 	if m.pos >= limit && m.cfg.EOFData && m.cfg.FailAt < 0 {
 		m.sawEnd = true
 		return n, io.EOF
